@@ -130,7 +130,7 @@ class C12(F.PropCheck):
     assumptions = ['board CALCFG hook inert, supla_esp_restart_on_cfg_press = 0, FirmwareUpdate = 0 (no update in progress), non-MQTT build',
                    'timer scheduling abstracted: theorems quantify over every interleaving of Tick/Time/ApTimer events (C11/C05 cover the scheduler)',
                    'roller-shutter engine = environment event RsEnv (arbitrary calibration state); message steps are checked from arbitrary states',
-                   'RETREIVE_CHANNEL_CONFIG not compiled in (device configuration of the harness); SET_CHANNEL_CONFIG is then an unknown call']
+                   'RETREIVE_CHANNEL_CONFIG compiled in; only the ACTIONTRIGGER channel configuration is modelled, gate-passing non-empty configs for relay/shutter functions are excluded by hypothesis (chcfg_unmodelled) and not generated']
     rule = ('abstract-schedule cases (model compared): boot with complete/incomplete/blank config x random boards (1-4 inputs, all CFG/FACTORY_RESET/ON_TOGGLE/ON_HOLD '
             'flag combinations, 0-2 shutters) x holds around the 5 s boundary, toggle trains with gaps around 2 s / 2^31 / 2^32 us and 40 min, CALCFG requests over '
             'all commands/data types/sizes/flag values/channels, set-value and random other calls, RsEnv pokes; real-schedule cases (monitor only): pin edges + '
